@@ -393,13 +393,16 @@ func findObject(pd *container, path string) (container, string) {
 }
 
 func (d *partialDoc) set(key string, val *lazyNode) error {
+	if *d == nil {
+		return fmt.Errorf("invalid value, expected object: %w", ErrInvalid)
+	}
+
 	(*d)[key] = val
 	return nil
 }
 
 func (d *partialDoc) add(key string, val *lazyNode) error {
-	(*d)[key] = val
-	return nil
+	return d.set(key, val)
 }
 
 func (d *partialDoc) get(key string) (*lazyNode, error) {
